@@ -14,7 +14,7 @@ from vlib import paths, proto, build
 from vlib.proto import hexs, unhex
 from checks import fuzzgen as G
 
-LEAN_TARGETS = ["LyModel.Props.C05"]
+LEAN_TARGETS = ["LyModel.Props.C05", "LyModel.Props.C05JsonNum"]
 AUDIT = "Audit/C05.lean"
 GENERATED = ["Consts", "LexConsts"]
 ASSUMPTIONS = [
